@@ -49,6 +49,14 @@ func randomFlags(rnd *rand.Rand) []string {
 			out = append(out, "DISABLE_NOTHING_KNOWN")
 		}
 	}
+	// names the server does not know - an empty one (a doubled or trailing separator in the configuration), a misspelt
+	// one, another case - anywhere in the list: they must change nothing
+	for _, junk := range []string{"", "DISABLE_NOTHING_KNOWN", "disable_session_state", "DISABLE_SESSION_STATE_"} {
+		if rnd.Intn(5) == 0 {
+			at := rnd.Intn(len(out) + 1)
+			out = append(out[:at], append([]string{junk}, out[at:]...)...)
+		}
+	}
 	return out
 }
 
